@@ -1,8 +1,14 @@
 """Script generator for C17 (round trips and exact grammars).
 
-Streams:  num    - number recognisers / conversions: exhaustive small universe over a number
-                   alphabet, a grammar-derived valid stream, a near-miss malformed stream
-          int.rt - toString(int) -> toInt
+Streams:  num     - number recognisers / conversions: exhaustive small universe over a number
+                    alphabet, a grammar-derived valid stream, a near-miss malformed stream
+          int.rt  - toString(int) -> toInt
+          dbl.rt  - toString(double, precision) -> toDouble (text compared with the %g model)
+          glob, kv.*, vars - wildcard matcher, key-value procedures, variable resolution
+          st.rt / nst.rt   - StringTokenizer / NestedStringTokenizer: tokens, recorded separators,
+                    unparse before and after k tokens (round 2)
+          tbl.rt  - DataTable write -> read (round 2)
+          dist.rt - distribution description write -> read, explored (round 2)
 All strings are hex-escaped ("-" = empty)."""
 import random, itertools, struct, re
 from fractions import Fraction
